@@ -606,6 +606,10 @@ fn stdin_leg(rep: &mut Report) {
             args.extend(cfg_cli_args(&case.cfg));
             args.extend(case.comp.cli());
             args.extend(["--hash-length".into(), case.hash_len.to_string(), "--buffered-chunks".into(), case.buffers.to_string(), arc.to_str().unwrap().into()]);
+            // every other run starts with the debris of an earlier failed run in place
+            if ci % 2 == 1 {
+                let _ = std::fs::write(arc.with_extension(".tmp"), vec![0xd7u8; 5000]);
+            }
             let mut child = match std::process::Command::new(&bita).args(&args).stdin(std::process::Stdio::piped()).stdout(std::process::Stdio::null()).stderr(std::process::Stdio::null()).env("RUST_BACKTRACE", "0").spawn() {
                 Ok(c) => c,
                 Err(e) => machinery(format!("cannot run {bita}: {e}")),
@@ -644,7 +648,7 @@ pub fn c11(rep: &mut Report) {
     let ev = rep.agg.get("library_roundtrips") + rep.agg.get("cli_roundtrips") + rep.agg.get("schedules") + rep.agg.get("metadata_cases") + rep.agg.get("stdin_compress_runs");
     rep.set("evaluations", json!(ev));
     rep.set("distinct_nontrivial", json!(rep.agg.distinct_count("archives") + rep.agg.distinct_count("schedule_outcomes")));
-    rep.set("rule", json!("every archive of the C01 sweep and of every explored compress schedule, by both writers, is decoded by the independent codec and checked against the conformance checklist (magic, sizes, offsets, checksums, descriptor uniqueness/order/back-to-back placement, chunk decoding, rebuild order, recorded parameters == requested, boundaries == reference chunking); metadata maps from a fixed adversarial set; the real binary with the source piped into stdin (4 chunkers x 5 (hash length, buffered-chunks) pairs x 3 sources); bitar::Archive accessors compared with the independent decoder"));
+    rep.set("rule", json!("every archive of the C01 sweep and of every explored compress schedule, by both writers, is decoded by the independent codec and checked against the conformance checklist (magic, sizes, offsets, checksums, descriptor uniqueness/order/back-to-back placement, chunk decoding, rebuild order, recorded parameters == requested, boundaries == reference chunking); metadata maps from a fixed adversarial set; the real binary with the source piped into stdin (4 chunkers x 5 (hash length, buffered-chunks) pairs x 3 sources, every other run with a stale temp file of an earlier failed run in place); bitar::Archive accessors compared with the independent decoder"));
     finish_sched(rep);
 }
 
